@@ -42,6 +42,30 @@ Theorem C04_read_atomic : forall c is t0 t k r j i0 it, wf_cfg c ->
 Proof. exact read_atomic. Qed.
 Print Assumptions C04_read_atomic.
 
+(* Zero when idle, by trace position: bus.r_data is zero in cycle 0 and in every cycle whose predecessor
+   is not a read strobe inside a readable register - ALL input sequences. *)
+Theorem C04_r_data_zero_trace : forall c is t, wf_cfg c -> (t <= length is)%nat ->
+  (forall t' i, t = S t' -> nth_error is t' = Some i ->
+     i_rstb i = false \/
+     forall r, In r (c_regs c) -> r_rd r = true -> ~ (r_start r <= i_addr i < r_stop r)) ->
+  rdata_at c is t = 0.
+Proof. exact r_data_zero_trace. Qed.
+Print Assumptions C04_r_data_zero_trace.
+
+(* The shadow size, hence the sharing limit (shadow_overlaps) it was computed from, is unobservable on
+   the read path: two admissible configurations of the same layout return the same data under the
+   premises of C04_read_atomic. *)
+Theorem C04_read_size_independent : forall c1 c2 is t0 t k r j i0 it, wf_cfg c1 -> wf_cfg c2 ->
+  c_dw c1 = c_dw c2 -> c_regs c1 = c_regs c2 ->
+  nth_error (c_regs c1) k = Some r -> r_rd r = true ->
+  nth_error is t0 = Some i0 -> i_rstb i0 = true -> i_addr i0 = r_start r ->
+  (t0 <= t)%nat ->
+  (forall u, (t0 < u <= t)%nat -> ~ any_first_read c1 is u) ->
+  nth_error is t = Some it -> i_rstb it = true -> i_addr it = r_start r + j -> 0 <= j < reg_len r ->
+  rdata_at c1 is (S t) = rdata_at c2 is (S t).
+Proof. exact read_size_independent. Qed.
+Print Assumptions C04_read_size_independent.
+
 (* ---- non-vacuity: an unaligned layout whose registers share read chunks, and a 3-chunk read of
    register 2 (= [5,8), 20 bits) during which every register changes its value, another register's
    non-first chunk is read, a write and an unmapped read occur. *)
@@ -50,6 +74,7 @@ Definition ex_regs : list reg :=
     {| r_start := 3; r_stop := 5; r_width := 12; r_rd := true; r_wr := true |};
     {| r_start := 5; r_stop := 8; r_width := 20; r_rd := true; r_wr := false |} ].
 Definition ex_c : cfg := {| c_dw := 8; c_regs := ex_regs; c_Sr := 4; c_Sw := 2 |}.
+Definition ex_c8 : cfg := {| c_dw := 8; c_regs := ex_regs; c_Sr := 8; c_Sw := 2 |}.
 Definition ex_rd (a : Z) (vs : list Z) : inp :=
   {| i_addr := a; i_rstb := true; i_wstb := false; i_wdata := 0; i_rvals := vs |}.
 Definition ex_is : list inp :=
@@ -67,7 +92,11 @@ Example C04_nonvacuous :
   table (c_Sr ex_c) (rregs ex_c) = [2; 3; 1] /\
   (* bus.r_data in cycles 0..6: words 0xDE, 0xBC, 0xA of the value 0xABCDE presented at cycle 0 *)
   map (rdata_at ex_c ex_is) [0; 1; 2; 3; 4; 5; 6]%nat = [0; 0xDE; 0xBC; 0xBC; 0; 0xA; 0] /\
-  map (fun j => word 8 20 j (rval_at ex_is 0 2 20)) [0; 1; 2] = [0xDE; 0xBC; 0xA].
+  map (fun j => word 8 20 j (rval_at ex_is 0 2 20)) [0; 1; 2] = [0xDE; 0xBC; 0xA] /\
+  (* with sharing limit 1 the read shadow has 8 entries; the protocol-conforming reads agree, and only
+     the non-conforming read at cycle 1 (a second chunk whose first chunk was never read) tells them apart *)
+  mk_cfg 8 ex_regs (Some 1) = Some ex_c8 /\
+  map (rdata_at ex_c8 ex_is) [0; 1; 2; 3; 4; 5; 6]%nat = [0; 0xDE; 0; 0xBC; 0; 0xA; 0].
 Proof. vm_compute. repeat split; reflexivity. Qed.
 
 Example C04_ex_wf : wf_cfg ex_c.
